@@ -651,6 +651,44 @@ def txfn_raises(rng):
     return fails, {'scenario': 'txfn_raises', 'at': at}
 
 
+def overflow_while_streaming(rng):
+    """started layer, Consecutive Frames streamed by the worker at STmin 20 ms: a Flow Control Overflow (or Wait with wftmax 0) arriving
+    between two of them is read and obeyed at once - OverflowError, the rest of the message is not emitted"""
+    import queue
+    out_frames, errors = [], []
+    qin = queue.Queue()
+
+    def rxfn(timeout):
+        try:
+            return qin.get(timeout=timeout) if timeout else qin.get_nowait()
+        except queue.Empty:
+            return None
+
+    def txfn(m):
+        out_frames.append(bytes(m.data))
+        if bytes(m.data)[0] >> 4 == 1:
+            qin.put(isotp.CanMessage(arbitration_id=0x222, data=bytes([0x30, 0, 20])))
+    a = isotp.Address(isotp.AddressingMode.Normal_11bits, txid=0x111, rxid=0x222)
+    L = isotp.TransportLayer(rxfn=rxfn, txfn=txfn, address=a, params={}, error_handler=errors.append, read_timeout=0.02)
+    fails = []
+    try:
+        L.start()
+        L.send(bytes(range(150)))
+        t0 = _time.time()
+        while _time.time() - t0 < 2.0 and sum(1 for d in out_frames if d[0] >> 4 == 2) < 3:
+            _time.sleep(0.002)
+        at = sum(1 for d in out_frames if d[0] >> 4 == 2)
+        qin.put(isotp.CanMessage(arbitration_id=0x222, data=bytes([0x32, 0, 0])))
+        _time.sleep(0.4)
+        ncf = sum(1 for d in out_frames if d[0] >> 4 == 2)
+        names = [type(e).__name__ for e in errors]
+        if 'OverflowError' not in names or ncf > at + 3 or L.transmitting():
+            fails.append(('overflow-ignored', 'Flow Control Overflow after Consecutive Frame %d of 21 (STmin 20 ms): %d Consecutive Frames emitted 0.4 s later, errors %s, transmitting()=%s' % (at, ncf, names[:2], L.transmitting())))
+    finally:
+        L.stop()
+    return fails, {'scenario': 'overflow_while_streaming'}
+
+
 # ---------------------------------------------------------------- C15
 def slow_txfn(rng):
     """txfn takes (virtual) time - a slow bus write - so the clock moves inside one process() pass: every frame is booked at the instant
@@ -899,11 +937,11 @@ def failed_kernel_bind(rng):
 
 
 SCENARIOS = {
-    'C01': [reload_midstream], 'C04': [reload_midstream, txfn_raises], 'C02': [tuple_iterable], 'C17': [tuple_iterable], 'C03': [blocked_recv, fc_not_throttled, idle_stop_receiving_threaded, very_long_reception], 'C06': [fc_not_throttled],
+    'C01': [reload_midstream], 'C04': [reload_midstream, txfn_raises, overflow_while_streaming], 'C02': [tuple_iterable], 'C17': [tuple_iterable], 'C03': [blocked_recv, fc_not_throttled, idle_stop_receiving_threaded, very_long_reception], 'C06': [fc_not_throttled],
     'C05': [clear_midreception], 'C07': [retimed, legacy_rx_deadline], 'C08': [slow_generator, stmin_raised_under_limiter], 'C10': [positional_process, very_long_reception], 'C12': [set_address_standby, stop_sending_while_streaming],
     'C13': [send_before_start], 'C14': [legacy_sleep_timing, stop_with_backlog], 'C11': [threaded_receiver_times_out], 'C15': [bystander_layer, slow_txfn], 'C19': [failed_kernel_bind], 'C20': [failed_kernel_bind],
 }
-REPS = {'stop_sending_while_streaming': 2, 'very_long_reception': 1, 'stop_with_backlog': 1, 'threaded_receiver_times_out': 2, 'idle_stop_receiving_threaded': 2, 'failed_kernel_bind': 6, 'blocked_recv': 4, 'send_before_start': 3, 'legacy_sleep_timing': 1, 'positional_process': 1}
+REPS = {'overflow_while_streaming': 2, 'stop_sending_while_streaming': 2, 'very_long_reception': 1, 'stop_with_backlog': 1, 'threaded_receiver_times_out': 2, 'idle_stop_receiving_threaded': 2, 'failed_kernel_bind': 6, 'blocked_recv': 4, 'send_before_start': 3, 'legacy_sleep_timing': 1, 'positional_process': 1}
 TEXT = {f.__name__: ' '.join(f.__doc__.split()) for fs in SCENARIOS.values() for f in fs}
 
 
